@@ -273,6 +273,7 @@ type World struct {
 	lastSeq map[string]int64 // rows already reported per doc (current epoch)
 	lastEp  map[string]int64
 	orig    map[string]*change.Change // original change objects by doc/actor/clientSeq/lamport
+	revs    map[string]types.ID       // the revision taken of a document
 	// Poisoned: requests are blocked forever on this world's server (deadlock);
 	// it must be abandoned, not closed gracefully.
 	Poisoned bool
